@@ -37,7 +37,19 @@ PROP = [  # (subject fragment, property)
  ("strtod reports ERANGE", "C08"), ("keep the tokeniser's error", "C08"), ("LINCOM field count is optional", "C08"),
  ("range check must not overflow int", "C08"), ("CARRAY slice bounds", "C10"), ("SARRAY slice bounds", "C10"),
  ("_GD_FindOpenFields indexed", "C10"), ("_GD_CheckParent must not step", "C10"), ("must re-resolve the aliases whose chain", "C15"),
- ("parent code with a leading dot", "C15"), ("must not index beyond the end of the CARRAY", "C05"), ("scalar field equal to zero", "C05"),
+ ("parent code with a leading dot", "C15"),
+ ("gd_uninclude must count removed metafields", "C15"), ("gd_include/gd_include_affix must invalidate", "C15"), ("_GD_Add must check input and scalar codes", "C15"),
+ ("_GD_UpdateAffixes must build the full namespace", "C15"), ("alias's resolution changes the cached lists", "C15"), ("gd_add_alias of", "C15"),
+ ("BIT/SBIT range test must not overflow", "C10"), ("alias the internal GD_REN_META", "C10"), ("gd_open_limit must refuse", "C10"),
+ ("pointer to the freed look-up table", "C10"), ("length whose byte size overflows", "C10"), ("forget the input and scalar codes it drops", "C10"),
+ ("zero count must not read the count", "C10"), ("refuse an INDEX entry", "C10"), ("invalid data type given to gd_add_const", "C10"),
+ ("SARRAY whose storage was never allocated", "C10"), ("gd_alter_affixes and gd_fragment_namespace must test the access mode", "C11"),
+ ("gd_madd_alias must test the /PROTECT", "C11"), ("gd_uninclude must not delete the file of a format-protected", "C11"),
+ ("must drop the MPLEX start-value caches", "C02"), ("resolve the entry's scalar parameters before comparing", "C02"),
+ ("prefix of an /INCLUDE line directly after", "C07"), ("fragment namespace restricts the Standards Version", "C07"), (".z is a representation suffix", "C07"),
+ ("gd_move of a reference field", "C07"), ("GD_DEL_DEREF must mark the client's fragment", "C07"), ("whose /REFERENCE it changes modified", "C07"),
+ ("NULL that _GD_StripCode returns", "C07"), ("differ from its rewritten parent's", "C07"), ("strip field names with GD_CO_NAME", "C07"),
+ ("window that began before sample zero", "C01"), ("must not index beyond the end of the CARRAY", "C05"), ("scalar field equal to zero", "C05"),
  ("MPLEX look-back must restore", "C02"), ("invalidate the MPLEX start-value cache", "C02"), ("failing out-of-place write must report", "C14"), ("close failures while replacing", "C14"),
 ]
 out = subprocess.run(["git", "-C", os.environ.get("VERIF_REPO", "/repo"), "log", "--reverse", "--format=%h %s"], stdout=subprocess.PIPE).stdout.decode()
